@@ -249,6 +249,7 @@ def check(ctx: Ctx) -> None:
     bs_common.positional_forms(ctx, grid)
     bs_common.batch_consistency(ctx, grid, greeks=("price",))
     bs_common.broadcasting(ctx, "price")
+    bs_common.python_strike_on_lattice(ctx, grid, greeks=("price",))
     bs_common.modules_follow_the_derivative(ctx)
     torch.set_default_dtype(torch.float32)       # the library's default: float64 INPUTS must still be priced in float64
     try:
